@@ -491,7 +491,9 @@ def stepDial (s : St) (impl : String) : St × StepOut :=
   let plumbing :=
     failIf (cs.map canonU16 != s.cs.map canonU16) "clienthello_is_spec" "-" s!"cipher suites {fmtNats cs}, spec {fmtNats s.cs}" ++
     failIf (exts.map canonU16 != sexts.map canonU16) "clienthello_is_spec" "-" s!"extension order {fmtNats exts}, spec {fmtNats sexts}"
-  let view := s!"{fmtNats (sortIDs ((ws.getD []).map fun w => specCanon w.1))}|{fmtNats (cs.map canonU16)}|{fmtNats (sortIDs (exts.map canonU16))}"
+  -- the padding extension (21) is excluded: uTLS adds it depending on the ClientHello length, which a derived
+  -- list with variable-length parameters changes from one spec build to the next
+  let view := s!"{fmtNats (sortIDs ((ws.getD []).map fun w => specCanon w.1))}|{fmtNats (cs.map canonU16)}|{fmtNats (sortIDs ((exts.filter (· != 21)).map canonU16))}"
   let ref := s.refs.find? (fun r => r.1 == s.key)
   -- a fingerprinter keeps the last value of a repeated integer parameter: with different values under one id
   -- the view legitimately depends on the permutation, so such (server-rejected) lists are not judged
@@ -500,14 +502,16 @@ def stepDial (s : St) (impl : String) : St × StepOut :=
   let stab := if !judged then [] else match ref with
     | none => []
     | some (_, rfp, rframes, rview) =>
-      failIf (fp != "-" && rfp != "-" && fp != rfp) "fingerprint_stable" (pingClass s.base frames rframes)
+      -- the property speaks of the built-in fingerprints: a derived list (or one shortened by suppression) may
+      -- legitimately change the framing (e.g. no room for a PADDING frame), only its ClientHello view is judged
+      failIf (!s.custom && s.sup.isEmpty && fp != "-" && rfp != "-" && fp != rfp) "fingerprint_stable" (pingClass s.base frames rframes)
         s!"fingerprint {fp} (frame types {fmtNats frames}), an earlier dial of the same spec gave {rfp} (frame types {fmtNats rframes})" ++
       failIf (view != rview) "canonical_view_stable" "-" s!"{view} vs {rview}"
   let rec_ :=
     failIf (!s.custom && s.sup.isEmpty && recorded s.base && fp != "-" && fp != s.want) "fingerprint_recorded"
       (if !frames.contains 1 && pingUnstable s.base then "frameset_without_ping" else "-")
       s!"clienthellod computes {fp}, {s.base} records {s.want} (frame types {fmtNats frames})"
-  let kinds := match pingBounds s.base with
+  let kinds := if frames.isEmpty then [] else match pingBounds s.base with
     | some (mn, mx) =>
       failIf (pingStableB mn mx && frames.contains 1 != decide (1 ≤ mn)) "frame_kinds_possible" "-"
         s!"frame types {fmtNats frames} but the spec draws its PING count from [{mn},{mx})" ++
